@@ -171,6 +171,16 @@ def arithmetic_simple(L, c, qt, u, fu, oqt):
         L.must_raise("Scalar %s Scalar (swapped)" % n, lambda: op(o, s), case, (s, o))
         L.must_raise("FractionScalar %s FractionScalar" % n, lambda: op(fs, fo), case, (fs, fo))
         L.must_raise("FractionScalar %s FractionScalar (swapped)" % n, lambda: op(fo, fs), case, (fs, fo))
+    # amounts that are no ordinary numbers (not-a-number, the infinities, the zeros) are amounts of their dimension all the same
+    for xa, xb in ((float("nan"), 1.0), (1.0, float("nan")), (float("nan"), float("nan")), (float("inf"), float("-inf")), (0.0, -0.0), (float("inf"), 0.0)):
+        sa, sb = Scalar(c, xa, u), Scalar(xb, fu)
+        ala, alb = Array(c, [xa, 1.0], u), Array(np.array([xb, xb]), fu)
+        for n, op in ORDER:
+            L.must_raise("Scalar(special amount) %s Scalar" % n, lambda: op(sa, sb), dict(case, amounts=[repr(xa), repr(xb)]), (sa, sb))
+            L.must_raise("Scalar(special amount) %s Scalar (swapped)" % n, lambda: op(sb, sa), dict(case, amounts=[repr(xa), repr(xb)]), (sa, sb))
+        for n, op in ADDSUB:
+            L.must_raise("Scalar(special amount) %s Scalar" % n, lambda: op(sa, sb), dict(case, amounts=[repr(xa), repr(xb)]), (sa, sb))
+            L.must_raise("Array(special amounts) %s Array (swapped)" % n, lambda: op(alb, ala), dict(case, amounts=[repr(xa), repr(xb)]), (ala, alb))
 
 
 def arithmetic_derived(ctx, L, T, B, r, n_cases):
